@@ -1,6 +1,7 @@
 import Treepath.Proofs.Drive
 import Treepath.Proofs.EvalLemmas
 import Treepath.Proofs.NodeLemmas
+import Treepath.Proofs.Distinct
 /- C12 — searching from a Match continues the original path -/
 namespace Treepath.C12
 
@@ -45,5 +46,41 @@ theorem climb_above_source (m t : MNode J) (h : m.remParent = some t) :
 
 example : (eval [.parent, .key "b"] (.imag (.child (.root (.obj [("a", .int 1), ("b", .int 2)])) (.key "a") (.int 1)))).map
     MNode.pathStr = ["$.a<-$.b"] := by decide
+
+/-- **results obtained from a Match carry absolute locations**: for a quiet path of plain steps
+(keys, indices, slices, wildcards, filters) evaluated from any node `n` — in particular from
+the bookkeeping root of a search started from a Match — every result's location starts with
+`n`'s own location, i.e. with the names from the document root down to the Match -/
+theorem results_are_located_below_the_source (q : List (Step J)) (hp : ∀ s ∈ q, s.plain = true) (hq : Quiet q) :
+    ∀ (n : MNode J), n.data.WFK → ∀ r ∈ eval q n, n.loc <+: r.loc ∧ r.data.WFK := by
+  induction q with
+  | nil => intro n hw r hr; simp [eval, evalE] at hr; subst hr; exact ⟨List.prefix_refl _, hw⟩
+  | cons s rest ih =>
+    intro n hw r hr
+    have hs := hp s (by simp)
+    have hrec : s.isRecur = false := plain_not_recur s hs
+    have hq' : Quiet rest := fun t ht => hq t (List.mem_cons_of_mem _ ht)
+    have IH := ih (fun t ht => hp t (List.mem_cons_of_mem _ ht)) hq'
+    rw [eval_cons_quiet s rest hq hrec n] at hr
+    obtain ⟨a, ha, hra⟩ := List.mem_flatMap.mp hr
+    by_cases hf : s.isFilter = true
+    · cases s <;> simp [Step.isFilter] at hf
+      rename_i f
+      rcases evalStep_filter f n with h0 | h1
+      · rw [h0] at ha; simp at ha
+      · rw [h1] at ha
+        simp only [List.mem_singleton] at ha
+        subst ha
+        exact IH (.imag n) hw r hra
+    · obtain ⟨its, e1, _, e3⟩ := evalStep_children s hs (by simpa using hf) n hw
+      rw [e1] at ha
+      obtain ⟨it, hit, rfl⟩ := List.mem_map.mp ha
+      obtain ⟨h1, h2⟩ := IH (.child n it.1 it.2) (e3 it hit) r hra
+      exact ⟨(List.prefix_append _ _).trans (by simpa [MNode.loc] using h1), h2⟩
+
+/-- … stated for the search from a Match `m` itself -/
+theorem nested_results_are_absolute (q : List (Step J)) (hp : ∀ s ∈ q, s.plain = true) (hq : Quiet q)
+    (m : MNode J) (hw : m.data.WFK) : ∀ r ∈ eval q (.imag m), m.loc <+: r.loc :=
+  fun r hr => (results_are_located_below_the_source q hp hq (.imag m) hw r hr).1
 
 end Treepath.C12
